@@ -88,6 +88,8 @@ type scn struct {
 	proposals         []string
 	step              int
 	inSetup           bool
+	adminSeq          int               // role macros issued
+	grantSeen         map[string]bool   // administrators already accounted for a grant
 	ruleProposalChain map[string]string // proposal id of a master-rule update -> appchain id
 	bitAddr           string            // address of the deployed WASM bit rule ("" if not deployed)
 	relaySet          map[int]bool      // validator indexes in the trust root currently stored for the other BitXHub (observed)
@@ -409,6 +411,8 @@ func (s *scn) apply(st CStep) {
 		s.applyRuleOp(st)
 	case "eth":
 		s.applyEth(st)
+	case "adminreg":
+		s.applyAdminReg(st)
 	default:
 		s.applyExtra(st)
 	}
